@@ -50,7 +50,7 @@ func H_C17() {
 	}
 	publish := vx.Param("PUBLISH", 1) == 1
 	h.run(nil, func(h *hist) {
-		what := []string{"after append", "after join", "after reload", "after identity change"}[h.kind]
+		what := []string{"after append", "after join", "after reload", "after identity change", "after joining a partial log"}[h.kind]
 		if h.kind == opAppend {
 			if h.err == nil && h.res != nil {
 				vx.Assert("C17", inStore(h.res.GetHash()), "an append that returned an entry has written its block")
